@@ -2,7 +2,7 @@
    paths).  Only statements closed by `exact <lemma>` and their Print Assumptions.
    Model: Model/Collect.v (quirk-parametric), specification: Model/CollectSpec.v. *)
 From TL Require Import Lib.Base Model.CollectStr Model.Glob Gen.CollectGen Model.Collect Model.CollectSpec
-     Actual.CollectActual Proofs.GlobFacts Proofs.CollectTables Proofs.CollectIgnoreStr Proofs.CollectWalk Proofs.CollectIgnore Proofs.CollectMain.
+     Actual.CollectActual Proofs.GlobFacts Proofs.GlobSets Proofs.CollectTables Proofs.CollectIgnoreStr Proofs.CollectWalk Proofs.CollectIgnore Proofs.CollectMain Model.CollectCache Proofs.CollectCacheFacts.
 
 (* 1. What _collect_files_fast collects, for every tree (induction on the tree): a path is collected iff
       it is a regular file of the tree, no directory between the target and the file is always-excluded,
@@ -146,6 +146,34 @@ Theorem C14_glob_reversed_range_empty : forall lo hi c, nat_of_ascii hi < nat_of
 Proof. exact reversed_range_empty. Qed.
 Print Assumptions C14_glob_reversed_range_empty.
 
+(* bracket expressions with ranges of ANY shape (reversed, degenerate, stray hyphens, negation).  The model cuts the text into
+   chunks and removes empty ranges the way fnmatch.translate does (Model/Glob.v set_chunks); for every text that decides the
+   same set as the simple reading "x-y is a range, empty when written backwards; everything else stands for itself; a leading
+   ! negates" -- unless removing a reversed range at the very start lets a "!" surface as the first character, which fnmatch
+   then takes for a negation (witness below). *)
+Theorem C14_glob_set_as_fnmatch_translate : forall stuff c,
+  bang_surfaces stuff = false -> tok_sem (mk_set stuff) c = tok_sem (mk_set_simple stuff) c.
+Proof. exact mk_set_simple_reading. Qed.
+Print Assumptions C14_glob_set_as_fnmatch_translate.
+
+Theorem C14_glob_bang_surfaces_only_after_reversed_range : forall stuff,
+  bang_surfaces stuff = true -> exists lo hi r, stuff = lo :: c_dash :: hi :: r /\ nat_of_ascii hi < nat_of_ascii lo.
+Proof. exact bang_surfaces_only_after_reversed_range. Qed.
+Print Assumptions C14_glob_bang_surfaces_only_after_reversed_range.
+
+Theorem C14_glob_bracket_any_body : forall name pre body post,
+  plain (la pre) -> plain (la post) -> ~ In c_rbr body -> closable (rev body) = true -> bang_surfaces body = false ->
+  fnm name (pre ++ "[" ++ sa body ++ "]" ++ post) = true <->
+  exists c, tok_sem (mk_set_simple body) c = true /\ la name = la pre ++ c :: la post.
+Proof. exact fnm_bracket. Qed.
+Print Assumptions C14_glob_bracket_any_body.
+
+(* what fnmatch does when the "!" surfaces: [z-a!x] is "anything but x", [b-a!] is "any character" *)
+Example C14_glob_bang_surfaces_witness :
+  bang_surfaces (la "z-a!x") = true /\ fnm "a" "[z-a!x]" = true /\ fnm "!" "[z-a!x]" = true /\ fnm "x" "[z-a!x]" = false
+  /\ fnm "q" "[b-a!]" = true /\ fnm "x" "[z-a]" = false /\ fnm "x" "[!z-a]" = true /\ fnm "-" "[b-a-]" = true /\ fnm "a" "[b-a-]" = false.
+Proof. vm_compute. repeat split; reflexivity. Qed.
+
 Theorem C14_glob_literal : forall name pat, plain (la pat) -> fnm name pat = String.eqb name pat.
 Proof. exact fnm_literal. Qed.
 Print Assumptions C14_glob_literal.
@@ -196,6 +224,54 @@ Theorem C14_dir_run_exact_name_only_patterns_partial : forall q recursive abs sp
   run_dir q recursive abs sp rel t (render_sources S) = spec_dir recursive rel t S.
 Proof. exact run_dir_exact_name_only. Qed.
 Print Assumptions C14_dir_run_exact_name_only_patterns_partial.
+
+(* 9. The memo of IgnoreDirectiveParser.is_ignored (self._ignore_cache, Model/CollectCache.v: state threaded through the lint_file calls
+      of one Orchestrator).  Distinct path objects have distinct strings (key injective on the paths handed to the parser): whatever was
+      asked before, a run lints exactly what the memo-free model lints and leaves a sound memo behind; so do several runs one after the
+      other; the runs of Model/Collect.v are the runs with a fresh memo.  Shape found in the source: one memo per parser instance, looked
+      up and filled under str(file_path).  Keyed by the file name instead, the memo would change what is linted (refutation). *)
+Theorem C14_ignore_memo_transparent : forall key q abs pats cp (dom : list string -> Prop) c ps,
+  (forall p1 p2, dom p1 -> dom p2 -> key p1 = key p2 -> p1 = p2) ->
+  sound key (ign_gate q pats cp) dom c -> Forall dom ps ->
+  fst (run_seq_memo key q abs pats cp c ps) = filter (linted q abs pats cp) ps
+  /\ sound key (ign_gate q pats cp) dom (snd (run_seq_memo key q abs pats cp c ps)).
+Proof. exact memo_transparent. Qed.
+Print Assumptions C14_ignore_memo_transparent.
+
+Theorem C14_ignore_memo_across_calls : forall key q abs pats cp (dom : list string -> Prop) calls,
+  (forall p1 p2, dom p1 -> dom p2 -> key p1 = key p2 -> p1 = p2) -> Forall (Forall dom) calls ->
+  fst (lint_calls key (hard_gate q abs) (ign_gate q pats cp) [] calls) = map (filter (linted q abs pats cp)) calls.
+Proof. exact memo_transparent_calls. Qed.
+Print Assumptions C14_ignore_memo_across_calls.
+
+Theorem C14_dir_run_with_memo : forall key q recursive abs sp rel t s,
+  (forall p1 p2, key p1 = key p2 -> p1 = p2) ->
+  fst (run_seq_memo key q abs (load_patterns q s) (chk_dir q sp rel) [] (walk (seq_collect_recursive recursive) rel t)) = run_dir q recursive abs sp rel t s.
+Proof. exact run_dir_with_memo. Qed.
+Print Assumptions C14_dir_run_with_memo.
+
+Theorem C14_named_files_with_memo : forall key q abs sp s ps,
+  (forall p1 p2, key p1 = key p2 -> p1 = p2) ->
+  fst (run_seq_memo key q abs (load_patterns q s) (chk_file q sp) [] ps) = run_files q abs sp s ps.
+Proof. exact run_files_with_memo. Qed.
+Print Assumptions C14_named_files_with_memo.
+
+Theorem C14_absolute_path_strings_injective : forall dirs p1 p2,
+  forallb comp_ok dirs = true -> path_ok p1 = true -> path_ok p2 = true -> abs_key dirs p1 = abs_key dirs p2 -> p1 = p2.
+Proof. exact abs_key_injective. Qed.
+Print Assumptions C14_absolute_path_strings_injective.
+
+Theorem C14_ignore_memo_shape : ignore_cache_per_instance = true /\ ignore_cache_keyed_by_path_str = true.
+Proof. exact ignore_cache_shape. Qed.
+Print Assumptions C14_ignore_memo_shape.
+
+Theorem C14_ignore_memo_keyed_by_name_refuted :
+  let key := fun p : list string => last p "" in
+  let ign := fun p : list string => String.eqb (hd "" p) "gen" in
+  fst (lint_seq key (fun _ => false) ign [] [["gen"; "x.py"]; ["src"; "x.py"]]) = []
+  /\ filter (fun p => negb (ign p)) [["gen"; "x.py"]; ["src"; "x.py"]] = [["src"; "x.py"]].
+Proof. exact memo_keyed_by_name_refuted. Qed.
+Print Assumptions C14_ignore_memo_keyed_by_name_refuted.
 
 (* non-vacuity: an admissible tree, target and source set on which something is excluded, something is
    ignored by every kind of source, and something is linted *)
